@@ -197,7 +197,10 @@ class FollowLinks(Suite):
         # (or when the memo is keyed by (link, remainder): the same link crossed twice by ONE request)
         "F19": lambda op, impl, model: impl.get("out") == model.get("m") and (model.get("spec_sep") is True or model.get("spec_keyed") is True),
         # F12: a request has a wildcard in a middle component, implementation = model, and the requests without one are fine
-        "F12": lambda op, impl, model: model.get("midwild") and impl.get("out") == model.get("m") and
+        # (on a disk source the text of such a pattern is then looked up as a PATH: when an entry is really named like that and is a
+        # cyclic link, lstat through it fails with ELOOP and FollowLinks returns the error)
+        "F12": lambda op, impl, model: model.get("midwild") and
+        (impl.get("out") == model.get("m") or (op["src"]["kind"] == "disk" and "too many levels of symbolic links" in str(impl.get("ferr")))) and
         (model.get("spec_nomid") is True or model.get("spec_sep_nomid") is True or model.get("spec_keyed_nomid") is True),
         # F32: a link whose resolution text has a component with a pattern metacharacter, implementation = model, and the variant of
         # the model that takes link-target components literally (shared, fresh or keyed memo) meets the reference
